@@ -114,6 +114,22 @@ def segment_strategy(weights, macros, extra=0):
                 seg.append(["rg", a % 3, 0, 0])
                 seg.append(["get", 0])
             return seg
+        if m == 12:     # a store that triggers something when it becomes full: fill it, let the items be delivered, then take one and
+            # put one several times within ONE instant (it is full again before any process of the store has run)
+            seg = []
+            for i in range(4):
+                seg += [["rp", (a + i) % 3, 0], ["put", 0, 0, (b + i) % 3]]
+            seg += [["adv", 7], ["adv", 7]]
+            for i in range(2 + k % 2):
+                seg += [["rg", a % 3, 0, 0], ["get", 0], ["rp", (a + 1) % 3, 0], ["put", 0, 0, 0]]
+            return seg
+        if m == 11:     # back-to-back feeding of a timed store: the next request is already waiting and the put follows exactly one
+            # period after the previous one (the period being one of the slot / waiting delays the subjects use)
+            step = [0, 1, 3, 4][b % 4]
+            seg = [["rp", a % 3, 0], ["put", 0, 0, c % 3]]
+            for i in range(3 + k):
+                seg += [["rp", (a + i) % 3, 0], ["adv", step], ["put", 0, 0, (c + i) % 3]]
+            return seg
         if m == 10:     # several items become available one after the other while earlier retrievals are still held (on a belt the
             # later ones arrive behind a reserved head), then an OLDER grant is withdrawn and new retrievals follow
             seg = [["rg", a % 3, 0, 0]] if k != 2 else []      # mostly: the first retrieval is already waiting when the head arrives
